@@ -11,10 +11,14 @@
    map from the document's labels to nodes: the known node for a label the caller fixed
    (shared dict, preserve_bnode_ids), otherwise a blank node that occurs nowhere in [prev];
    [supply_ok fresh]: the supply never repeats and stays clear of ids in use. *)
-From RV Require Import Parse.Model Parse.Proofs Parse.Machines Parse.MachineProofs.
+From RV Require Import Parse.Model Parse.Proofs Parse.General Parse.Machines Parse.MachineProofs.
 
 (* The tie between model and checker: on every well-formed case on which no known-finding
-   trigger fires, the specification checker accepts what the model computes. *)
+   trigger fires, the specification checker accepts what the model computes.  [wf] is the shape
+   of the suite's cases: every label carries a tag triple (only so that the harness and the
+   checker can tell which node a label became without comparing ids) and a document has at most
+   LB = 16 labels (the executable supply).  Neither restriction is in C12_merge /
+   C12_labels_scoped / C12_same_doc_iso below. *)
 Theorem C12_spec_ok_model : forall c, wf c -> kf c = 0%N -> spec_ok c (model_obs c) = true.
 Proof. exact spec_ok_model. Qed.
 Print Assumptions C12_spec_ok_model.
@@ -49,8 +53,12 @@ Theorem C12_checker_step_complete : forall known prev now j d g,
 Proof. exact merge_ok_intro. Qed.
 Print Assumptions C12_checker_step_complete.
 
-(* Parsing only adds: no quad of any graph is lost or changed by a parse call - for every
-   syntax, every label discipline and every supply. *)
+(* Parsing only adds - IN THE MODEL, and there by construction: [parse_call] is a fold of [q_add]
+   over the statements, the syntax enters only through the label discipline.  This theorem says
+   that the model has no other effect on the store; that the real parsers only ever call add is
+   not proved here, it is what the correspondence suites observe on every run (finding F12 - two
+   parsers emptying the default graph - was found that way and the historical model
+   [parse_call_prefix] below records it). *)
 Theorem C12_only_adds : forall fr e0 st d, incl st (snd (parse_call fr e0 st d)).
 Proof. exact parse_call_incl. Qed.
 Print Assumptions C12_only_adds.
@@ -69,37 +77,79 @@ Theorem C12_one_node_per_label : forall fr e0 st d q,
 Proof. exact parse_call_In. Qed.
 Print Assumptions C12_one_node_per_label.
 
-(* The result of a sequence of parse calls is, call by call, the RDF merge of the old
-   content and the document (any supply that never repeats). *)
-Theorem C12_merge : forall fresh init ds,
+(* The result of a sequence of parse calls is, call by call, the RDF merge of the old content and
+   the document.  No bound on the number of labels, no tag triples: [doc_wf] asks only that
+   constants are constants and that a label KEPT by the parser is numbered below 100 (the range this
+   development reserves for BNode(label)); the supply is any injective function into even ids
+   >= 1000 (the ids no constant and no kept label uses) - hypotheses, as uuid4 is. *)
+Theorem C12_merge : forall fresh : N -> N -> N,
+  (forall j l j' l', fresh j l = fresh j' l' -> j = j' /\ l = l') ->
+  (forall j l, (1000 <= fresh j l)%N /\ N.even (fresh j l) = true) ->
+  forall init ds,
+  init_wf init = true -> forallb doc_wf ds = true ->
+  kf_run fresh 0 [] init ds = 0%N ->
+  merges_run fresh 0 [] init ds.
+Proof.
+  intros fresh Hi Hr init ds Hq Hd Hk. apply gen_run_merges; auto.
+  - now apply GI_init.
+  - apply GEs_nil.
+Qed.
+Print Assumptions C12_merge.
+
+(* Labels are scoped to the call (calls that share no dict with their caller): the node a call
+   makes for a label was made by no earlier call ([used]) and occurs nowhere in the previous
+   content; within the call the map from labels to nodes is one injective function. *)
+Theorem C12_labels_scoped : forall fresh : N -> N -> N,
+  (forall j l j' l', fresh j l = fresh j' l' -> j = j' /\ l = l') ->
+  (forall j l, (1000 <= fresh j l)%N /\ N.even (fresh j l) = true) ->
+  forall init ds,
+  init_wf init = true -> forallb doc_wf ds = true -> forallb private ds = true ->
+  kf_run fresh 0 [] init ds = 0%N ->
+  scoped_run fresh 0 [] init ds.
+Proof.
+  intros fresh Hi Hr init ds Hq Hd Hp Hk. apply gen_run_scoped; auto.
+  now apply GI_init.
+Qed.
+Print Assumptions C12_labels_scoped.
+
+(* the hypotheses on the supply are satisfiable without any bound (a pairing function) *)
+Theorem C12_unbounded_supply_exists :
+  (forall j l j' l', pair_fresh j l = pair_fresh j' l' -> j = j' /\ l = l') /\
+  (forall j l, (1000 <= pair_fresh j l)%N /\ N.even (pair_fresh j l) = true).
+Proof. exact pair_fresh_ok. Qed.
+Print Assumptions C12_unbounded_supply_exists.
+
+(* Parsing the same document into two EMPTY stores - "two fresh graphs", as the property says -
+   with two different supplies gives isomorphic stores: the bijection is exhibited ([renaming] of
+   Parse/Proofs.v).  Any number of labels. *)
+Theorem C12_same_doc_iso : forall (fr1 fr2 : N -> N) d,
+  (forall l l', fr1 l = fr1 l' -> l = l') ->
+  (forall l l', fr2 l = fr2 l' -> l = l') ->
+  (forall l, (1000 <= fr1 l)%N /\ N.even (fr1 l) = true) ->
+  (forall l, (1000 <= fr2 l)%N /\ N.even (fr2 l) = true) ->
+  doc_wf d = true ->
+  exists h, iso_by h (snd (parse_call fr1 [] [] d)) (snd (parse_call fr2 [] [] d)).
+Proof. exact gen_same_doc_iso. Qed.
+Print Assumptions C12_same_doc_iso.
+
+(* The same three statements for the documents of the correspondence suite, phrased over what the
+   CHECKER learns from observations (tag triples; at most LB = 16 labels per document because the
+   executable supply [std_fresh j l = 1000 + 2 (16 j + l)] is injective only there): this is the
+   chain  model run -> accepted by the checker -> Prop-level reading  that ties the suite. *)
+Theorem C12_merge_suite_documents : forall fresh init ds,
   supply_ok fresh -> forallb quad_small init = true -> docs_ok 0 ds = true ->
   kf_run fresh 0 [] init ds = 0%N ->
   merges [] init 0 ds (run fresh 0 [] init ds).
 Proof. exact run_merges. Qed.
-Print Assumptions C12_merge.
+Print Assumptions C12_merge_suite_documents.
 
-(* Labels are scoped to the call: the node a call makes for a label was made by no earlier
-   call ([used]) and occurs nowhere in the previous content; within the call the map from
-   labels to nodes is one injective function. *)
-Theorem C12_labels_scoped : forall fresh init ds,
+Theorem C12_labels_scoped_suite_documents : forall fresh init ds,
   supply_ok fresh -> forallb quad_small init = true -> docs_ok 0 ds = true ->
   forallb private ds = true ->
   kf_run fresh 0 [] init ds = 0%N ->
   scoped [] init ds (run fresh 0 [] init ds).
 Proof. exact run_scoped. Qed.
-Print Assumptions C12_labels_scoped.
-
-(* Parsing the same document into two empty stores (two different supplies) gives
-   isomorphic stores: the bijection is exhibited ([renaming] of Parse/Proofs.v). *)
-Theorem C12_same_doc_iso : forall (fr1 fr2 : N -> N) j d,
-  (forall l l', (l < LB)%N -> (l' < LB)%N -> fr1 l = fr1 l' -> l = l') ->
-  (forall l l', (l < LB)%N -> (l' < LB)%N -> fr2 l = fr2 l' -> l = l') ->
-  (forall l, (1000 <= fr1 l)%N /\ N.even (fr1 l) = true) ->
-  (forall l, (1000 <= fr2 l)%N /\ N.even (fr2 l) = true) ->
-  doc_ok j d = true ->
-  exists h, iso_by h (snd (parse_call fr1 [] [] d)) (snd (parse_call fr2 [] [] d)).
-Proof. exact same_doc_iso. Qed.
-Print Assumptions C12_same_doc_iso.
+Print Assumptions C12_labels_scoped_suite_documents.
 
 (* Finding F9: with the identity discipline (JSON-LD, HexTuples; the repository's own tests
    pin label preservation for both) the statement fails - two documents that use the same
@@ -136,7 +186,8 @@ Theorem C12_f12_witness_now_passes :
 Proof. exact f12_fixed. Qed.
 Print Assumptions C12_f12_witness_now_passes.
 
-(* the supply of the executable model satisfies the hypotheses *)
+(* the supply of the executable model satisfies the suite-level hypotheses - for labels below
+   LB = 16 only ([supply_ok] carries that bound; it belongs to this instance, not to C12_merge) *)
 Theorem C12_std_supply_ok : supply_ok std_fresh.
 Proof. exact std_supply_ok. Qed.
 Print Assumptions C12_std_supply_ok.
